@@ -15,7 +15,7 @@ CHECKS = {
   "note": "GBN layer and codecs; Noise-level malformed input is covered by C02/C04/C16 checks; a crash is attributed to the scenario recorded just before it",
  },
  "C09": {
-  "text": "TLC proves the window-arithmetic lemmas for every (s, base, top, wire value) tuple of the listed sequence spaces and WindowBound/Outstanding/AddOnlyWithRoom on GBN.tla; the real queue's results for all 256 ACK/NACK values in every window state are compared by TLC with the specification's operators; blocking scenarios and random-fault runs of real connections are trace-validated with the window invariants evaluated in every state.",
+  "text": "TLC proves the window-arithmetic lemmas for every (s, base, top, wire value) tuple of the listed sequence spaces, Apalache discharges them for every sequence space 2..256 at once (and refutes the pinned unguarded arithmetic), and WindowBound/Outstanding/AddOnlyWithRoom on GBN.tla; the real queue's results for all 256 ACK/NACK values in every window state are compared by TLC with the specification's operators; blocking scenarios and random-fault runs of real connections are trace-validated with the window invariants evaluated in every state.",
   "note": "arithmetic exhaustive for the listed sequence-space sizes and sampled for s = 255; blocking observed at synctest quiescent instants",
   "technique": "TLA+ model checking (TLC) + function-trace and connection-trace validation against the spec",
  },
